@@ -408,6 +408,12 @@ let register (reg : string -> (string list -> string) -> unit) =
         | "dim" -> CssDim.dimension_token keep optzero false d b
         | _ -> CssDim.dimension_token keep optzero true d b)
     | _ -> "BADARGS");
+  reg "cssalpha" (function [k; pc; tok] ->
+      let keep = (k = "1") and is_pct = (pc = "1") and b = hexd tok in
+      let t1 = if is_pct then CssDim.percentage_token keep b else CssDim.number_token keep false b in
+      let (_, d) = CssAlpha.min_number_percentage is_pct t1 in
+      hexe d
+    | _ -> "BADARGS");
   reg "csshex" (function [v] -> hexe (CssColor.hex_color_minify Tables_gen.css_shorten_color_hex (hexd v)) | _ -> "BADARGS");
   reg "htmlws" (function [o; t] -> htmlws_case o t | [o] -> htmlws_case o "" | _ -> "BADARGS");
   reg "htmlattrout" (function [o; tag; attrs] ->
